@@ -93,8 +93,17 @@ func NewUniverse(c *chain.Chain, nDyn int) *Universe {
 	add("eoa", c.Accts[iEOA].Addr)
 	add("mod", cpctypes.CpcModuleAddress)
 	add("fresh", common.HexToAddress("0x00000000000000000000000000000000fe5400aa"))
+	// further dynamic addresses have names (so that records at them are recognised) but are probed only when registered
+	for k := nDyn; k < MaxDynNames; k++ {
+		a := DynAddr(uint64(k))
+		u.Names[a] = fmt.Sprintf("dyn%d", k)
+		u.Addr[fmt.Sprintf("dyn%d", k)] = a
+	}
 	return u
 }
+
+// MaxDynNames is the number of named dynamic addresses (TraceCpcRegistry!TraceDynAddrs has the same length).
+const MaxDynNames = 160
 
 func (u *Universe) name(a common.Address) string {
 	if n, ok := u.Names[a]; ok {
@@ -312,18 +321,32 @@ func StdRef(t *Toks, a common.Address, input []byte) string {
 
 // ProbePlan selects which probes a node gets.
 type ProbePlan struct {
-	Full bool // every candidate x every mode x (name(), hrp view, name() through a proxy); otherwise see ProbeLite
+	Sel  []string // non-full lines: probe only these addresses in all modes (nil = every registered contract)
+	Full bool     // every candidate x every mode x (name(), hrp view, name() through a proxy); otherwise see ProbeLite
 }
 
 // ProbeLite probes every candidate with a direct name() call through eth_call only: addr -> "h|u".
 func (r *RegRun) ProbeLite() (trace.M, int) {
 	p := &Prober{C: r.C, From: ProberAcct}
 	out := trace.M{}
-	for _, n := range r.U.Cands {
-		raw := p.EthCall(Req{r.U.Addr[n], Inputs["in1"], "direct", 0})
+	names := append([]string{}, r.U.Cands...)
+	for _, n := range r.registered() {
+		if _, isCand := out[n]; !isCand {
+			names = append(names, n)
+		}
+	}
+	for _, n := range names {
+		if _, done := out[n]; done {
+			continue
+		}
+		a, ok := r.U.Addr[n]
+		if !ok {
+			continue // a record at an address outside the universe: the projection laws report it
+		}
+		raw := p.EthCall(Req{a, Inputs["in1"], "direct", 0})
 		out[n] = hClass(r.T, raw.HSeen, raw.HErr, raw.HOut) + "|" + uClass(r.T, "eth_call", "direct", raw)
 	}
-	return out, len(r.U.Cands)
+	return out, len(out)
 }
 
 // Probe runs the probe matrix against the current committed state and returns the "probe" object:
@@ -438,19 +461,34 @@ func (r *RegRun) balOf(n string) int64 { return trace.I(r.C.Bal(r.U.Addr[n], cha
 func (r *RegRun) ProbeFields(plan ProbePlan) (trace.M, int) {
 	if !plan.Full {
 		lite, n := r.ProbeLite()
+		targets := r.registered()
+		if plan.Sel != nil {
+			targets = plan.Sel
+		}
 		var cells []cell
-		for _, a := range r.registered() {
+		for _, a := range targets {
 			for mi := range Modes {
 				cells = append(cells, cell{a, "e0", mi, Req{r.U.Addr[a], []byte{}, "direct", 0}, false})
+				if plan.Sel != nil {
+					cells = append(cells, cell{a, "d1", mi, Req{r.U.Addr[a], inputBytes("in1"), "direct", 0}, false})
+				}
 			}
 		}
-		reg0 := trace.M{}
+		reg0, sel1 := trace.M{}, trace.M{}
 		for i, sres := range r.runCells(cells) {
-			arr, _ := reg0[cells[i].addr].([]string)
-			reg0[cells[i].addr] = append(arr, sres)
+			m := reg0
+			if cells[i].col == "d1" {
+				m = sel1
+			}
+			arr, _ := m[cells[i].addr].([]string)
+			m[cells[i].addr] = append(arr, sres)
 		}
 		r.step++
-		return trace.M{"probe": lite, "full": false, "reg0": reg0}, n + len(cells)
+		f := trace.M{"probe": lite, "full": false, "reg0": reg0}
+		if plan.Sel != nil {
+			f["sel"], f["sel1"] = plan.Sel, sel1
+		}
+		return f, n + len(cells)
 	}
 	var cells []cell
 	extra := map[string]map[string][]interface{}{}
@@ -570,6 +608,7 @@ type Op struct {
 	Decimals uint32
 	WL       []string // UpdateParams: new whitelist (names)
 	Ver      uint32
+	Items    []Op   // DeployErc20Batch: the deployments of one block
 	Addr     string // SetDisabled / Retype target (name)
 	Flag     bool   // SetDisabled value / Retype: as new deployment
 }
@@ -578,6 +617,8 @@ func (o Op) String() string {
 	switch o.K {
 	case "DeployErc20":
 		return fmt.Sprintf("DeployErc20(%s,%s,%q,%q,%d)", o.Sender, o.Denom, o.Name, o.Symbol, o.Decimals)
+	case "DeployErc20Batch":
+		return fmt.Sprintf("DeployErc20Batch(%s,%d deployments,%s..)", o.Sender, len(o.Items), o.Items[0].Denom)
 	case "DeployStaking":
 		return fmt.Sprintf("DeployStaking(%s,%q,%d)", o.Sender, o.Symbol, o.Decimals)
 	case "UpdateParams":
@@ -606,6 +647,40 @@ func (r *RegRun) Apply(o Op) (trace.M, trace.M) {
 			err := rsp.Unmarshal(bz)
 			return rsp.ContractAddress, err
 		})
+	case "DeployErc20Batch": // several real deploy transactions of one sender in ONE block
+		who := r.Who[o.Sender]
+		seq0 := c.Seq(who.Addr)
+		var txs [][]byte
+		items := []trace.M{}
+		for i, it := range o.Items {
+			msg := &cpctypes.MsgDeployErc20ContractRequest{Authority: who.Acc().String(), Name: it.Name, Symbol: it.Symbol, Decimals: it.Decimals, MinDenom: it.Denom}
+			seq := seq0 + uint64(i)
+			tx, err := c.CosmosTx(who, []sdk.Msg{msg}, chain.CosmosTxOpts{Gas: 500000, GasPrice: c.BaseFee().Int64() + 5, Seq: &seq})
+			if err != nil {
+				panic(err)
+			}
+			txs = append(txs, tx)
+			items = append(items, trace.M{"denom": r.denomName(it.Denom), "name": r.T.T(it.Name), "symbol": r.T.T(it.Symbol), "decimals": decTok(it.Decimals)})
+		}
+		bo := c.Deliver(txs...)
+		if bo.Panic != nil || bo.Err != nil {
+			panic(fmt.Sprint("batch block failed: ", bo.Panic, bo.Err))
+		}
+		oks, addrs := []bool{}, []string{}
+		all := true
+		for _, tr := range bo.Res.TxResults {
+			one := trace.M{"ok": false, "addr": "none", "why": ""}
+			r.fillDeployRes(one, TxOutcome{Code: tr.Code, Codespace: tr.Codespace, Log: tr.Log, Data: tr.Data}, func(bz []byte) (string, error) {
+				var rsp cpctypes.MsgDeployErc20ContractResponse
+				err := rsp.Unmarshal(bz)
+				return rsp.ContractAddress, err
+			})
+			oks = append(oks, one["ok"].(bool))
+			addrs = append(addrs, one["addr"].(string))
+			all = all && one["ok"].(bool)
+		}
+		opj["sender"], opj["items"] = o.Sender, items
+		res["ok"], res["oks"], res["addrs"] = all, oks, addrs
 	case "DeployStaking":
 		who := r.Who[o.Sender]
 		msg := &cpctypes.MsgDeployStakingContractRequest{Authority: who.Acc().String(), Symbol: o.Symbol, Decimals: o.Decimals}
@@ -697,6 +772,7 @@ type RegGenOpts struct {
 	RandLen  int  // ops per random scenario
 	Shard    int  // this process handles genesis configurations i with i % Shards == Shard
 	Shards   int
+	Many     []int // "many contracts" scenarios: number of ERC-20 precompiles to register in each
 	Scripted bool  // also run the scripted scenarios
 	Cfgs     []int // genesis configurations of the tree part (nil = all)
 	FullEach bool // full probe matrix at every node (otherwise at leaves and accepted ops; reduced elsewhere)
@@ -880,6 +956,13 @@ func GenRegistry(w *trace.W, o RegGenOpts) RegStats {
 			}
 		}
 	}
+	// "many contracts" scenarios: more registered contracts than any page size
+	for mi, count := range o.Many {
+		if (1+mi)%shards != o.Shard {
+			continue
+		}
+		manyScenario(w, &st, toks, mi, count)
+	}
 	// random linear scenarios
 	rng := rand.New(rand.NewSource(o.Seed))
 	for i := 0; i < o.Random; i++ {
@@ -941,6 +1024,84 @@ func firstVisit(seen map[string]bool, r *RegRun) bool {
 	}
 	seen[k] = true
 	return true
+}
+
+// manyScenario registers `count` ERC-20 precompiles (one per bank denomination) through real messages of the whitelisted
+// deployer, up to 9 per block, and probes after the 99th, 100th, 101st and last deployment: the lite probe (eth_call name())
+// of every candidate and every registered contract, plus name() and empty calldata in all six modes at the first, 100th,
+// 101st and last registered contract in deployment order and in address order, the next dynamic address and a fresh address.
+func manyScenario(w *trace.W, st *RegStats, toks *Toks, idx, count int) {
+	g := genCfg{false, false, nil, []string{"w"}}
+	c := NewRegChain(RegOpts{ManyDenoms: count})
+	r := &RegRun{C: c, T: toks, Denoms: []string{chain.Denom, chain.Denom2, DenomZero, DenomThree}}
+	for i := 0; i < count; i++ {
+		r.Denoms = append(r.Denoms, ManyDenom(i))
+	}
+	r.U = NewUniverse(c, 4)
+	r.Who = map[string]*chain.Acct{"w": ManyDeployer, "n": c.Accts[iN], "w2": c.Accts[iW2], "val": c.Accts[iVal]}
+	w.Emit(r.genesisLine(fmt.Sprintf("many-%d-%d", idx, count), g, ProbePlan{Full: true}))
+	st.Traces++
+	st.Nodes++
+	stops := map[int]bool{99: true, 100: true, 101: true, count: true}
+	done, line := 0, 0
+	for done < count {
+		var items []Op
+		for len(items) < 9 && done+len(items) < count {
+			d := ManyDenom(done + len(items))
+			items = append(items, Op{K: "DeployErc20", Sender: "w", Denom: d, Name: "tok" + d, Symbol: "T" + strings.ToUpper(d), Decimals: uint32(1 + (done+len(items))%18)})
+			if stops[done+len(items)] {
+				break
+			}
+		}
+		op := Op{K: "DeployErc20Batch", Sender: "w", Items: items}
+		opj, res := r.Apply(op)
+		done += len(items)
+		ln := trace.M{"ev": "Op", "d": line, "op": opj, "res": res, "txt": fmt.Sprintf("%s -> %d registered", op.String(), done)}
+		if stops[done] {
+			pf, n := r.ProbeFields(ProbePlan{Sel: r.manySel(done)})
+			st.Probes += n
+			ln = withFields(ln, pf)
+		} else {
+			ln["probe"], ln["full"], ln["noprobe"] = trace.M{}, false, true
+		}
+		ln["reg"] = r.Project()
+		w.Emit(ln)
+		line++
+		st.Nodes++
+		if res["ok"].(bool) {
+			st.Accepted++
+		} else {
+			st.Rejected++
+		}
+		st.Classes[op.K+"/"+fmt.Sprint(res["ok"])]++
+	}
+}
+
+// manySel selects the contracts probed in every mode: first, 100th, 101st and last registered, by deployment order and by
+// address order (the order of the store), the next dynamic address and a never-used address.
+func (r *RegRun) manySel(done int) []string {
+	pick := map[string]bool{}
+	for _, k := range []int{0, 98, 99, 100, done - 1} {
+		if k >= 0 && k < done {
+			pick[fmt.Sprintf("dyn%d", k)] = true
+		}
+	}
+	d := DumpReg(r.C) // Metas are in store (address) order
+	for _, k := range []int{0, 98, 99, 100, 101, len(d.Metas) - 1} {
+		if k >= 0 && k < len(d.Metas) {
+			pick[r.U.name(d.Metas[k].KeyAddr)] = true
+		}
+	}
+	pick[fmt.Sprintf("dyn%d", done)] = true
+	pick["fresh"] = true
+	var out []string
+	for n := range pick {
+		if _, ok := r.U.Addr[n]; ok {
+			out = append(out, n)
+		}
+	}
+	sort.Strings(out)
+	return out
 }
 
 type script struct {
